@@ -229,6 +229,17 @@ def explore_pair(item):
     single = isinstance(req, str)
     item_req = req
     req = req if single else "+".join(req)
+    # the requests themselves must not put the engine into its error state - in any serial order either (none of the prepared
+    # states has an error, and every request is a legal one)
+    for out_s, where_s in serial.items():
+        errs = json.loads(out_s).get("errors")
+        if errs:
+            viol_serial = (f"C40:request-put-engine-in-error-state:{req}:{scn}:serial-order",
+                           f"scenario {scn}, requests {req} applied serially at {where_s}: engine error {errs[:2]}",
+                           {"scenario": scn, "request": item_req, "window": window, "choices": [], "request_first": request_first})
+            break
+    else:
+        viol_serial = None
     viol = []
     n = 0
     outcomes = collections.Counter()
@@ -253,6 +264,8 @@ def explore_pair(item):
             viol.append((f"C40:not-serializable:{req}:{scn}:{where}",
                          f"request {req} in scenario {scn}: outcome of interleaving {compress(info['trace'])} equals no serial schedule; "
                          f"outcome {out[:600]}", {"scenario": scn, "request": item_req, "window": window, "choices": choices, "request_first": request_first}))
+    if viol_serial is not None:
+        viol.insert(0, viol_serial)
     seen, uniq = set(), []
     for s, w, c in viol:
         if s not in seen:
@@ -347,6 +360,11 @@ def replay(data):
         print(f"serial (request before window tick {j}):", o[:500])
     print("concurrent outcome:", (out or info)[:700] if isinstance(out, str) else info)
     label = req if isinstance(req, str) else "+".join(req)
+    for out_s, where_s in serial.items():
+        errs = json.loads(out_s).get("errors")
+        if errs:
+            print(f"serial order {where_s}: engine error {errs[:2]}")
+            return [(f"C40:request-put-engine-in-error-state:{label}:{scn}:serial-order", f"engine error {errs[:2]}")]
     if out is None:
         return [(f"C40:deadlock:{label}:{scn}", info["deadlock"])]
     if out not in serial:
